@@ -12,6 +12,8 @@ pub const ID_ATOMS: &[&str] = &[
     "1e5", "2E10", "7e-3", "0e0", "1e", "0x10", "0b1", "0o7", "1f", "1d", "inf", "nan", "NaN", "infinity", "1-0", "00a", "0-", "9007199254740993", "900719925474099", "900719925474100",
     // decimal-round numbers (chunked / digit-group parsers), capital letters
     "100000000", "300000000", "2100000000", "10000000000", "900719900000000", "1000000000000000000", "DEV", "RC", "V2", "V", "X",
+    // identifiers ending in the letters the grammar treats specially in front of a version
+    "v", "dev", "rev", "1v", "x-",
 ];
 
 pub fn rand_ids(r: &mut Rng, max: usize) -> Vec<String> {
